@@ -1,5 +1,6 @@
 import CC.Props.C13
 import CC.Model.Embed
+import CC.Model.Shape
 import CC.Lemmas.Issued
 import CC.Lemmas.World
 /-! # C13 over every history — what the API can reach round-trips
@@ -443,23 +444,9 @@ theorem store_load_is_invisible (L : Leaves c) (hL : LeavesInj L) (w : World) (h
   subst this
   rfl
 
-/-- non-vacuity: a leaf representation of the Curve25519 sizes exists (constant-free: token `t` as a
-little-endian number padded to the leaf size is one; here the simplest total choice) -/
-def leavesWitness : Leaves cfgC25519 where
-  scalar := fun _ => List.replicate 32 0
-  point := fun _ => List.replicate 32 0
-  dk := fun _ => List.replicate 1632 0
-  ek := fun _ => List.replicate 800 0
-  sigKey := fun _ => List.replicate 16 0
-  mac := fun _ => List.replicate 32 0
-  scalar_len := by intro; simp only [List.length_replicate]; rfl
-  scalar_ok := by intro; rfl
-  point_len := by intro; simp only [List.length_replicate]; rfl
-  point_ok := by intro; rfl
-  dk_len := by intro; simp only [List.length_replicate]; rfl
-  ek_len := by intro; simp only [List.length_replicate]; rfl
-  sigKey_len := by intro; simp only [List.length_replicate]; rfl
-  mac_len := by intro; simp only [List.length_replicate]; rfl
+/-- non-vacuity: leaf representations of both configurations' sizes exist (`CC.Model.Shape`) -/
+example : Leaves cfgC25519 := zeroLeavesC25519
+example : Leaves cfgP256 := zeroLeavesP256
 
 end CC.Props.C13Reach
 
